@@ -697,9 +697,15 @@ def _download_from_resources(
     """
 
     def _worker(cache_miss: CacheMiss) -> bool:
+        # Download (and post-process) under a temporary name that is not recognized
+        # as a cache file, and only move the file into place once it is complete. A
+        # failed or interrupted download then never leaves a partial file behind that
+        # is adopted as a valid entry when the cache is initialized again.
+        temporary_filepath = cache_miss.filepath + ".part"
         try:
-            cache_miss.download_function(cache_miss.uri, cache_miss.filepath)
-            cache_miss.post_process_function(cache_miss.filepath)
+            cache_miss.download_function(cache_miss.uri, temporary_filepath)
+            cache_miss.post_process_function(temporary_filepath)
+            os.replace(temporary_filepath, cache_miss.filepath)
             return True
         except _RemoteResourceUriNotFound as e:
             if cache_miss.allow_for_missing_files:
@@ -709,6 +715,9 @@ def _download_from_resources(
             else:
                 raise e
             return False
+        finally:
+            if os.path.exists(temporary_filepath):
+                os.remove(temporary_filepath)
 
     # construct the arguments to be used for parallel downloading of files.
     # Specifically, we need to match the right resource for downloading to the
